@@ -4,13 +4,13 @@ import os
 import random
 import sys
 
-from common import standard_main, run_model, run_cli_many, WORK, is_panic
+from common import standard_main, run_model, run_cli_many, run_cli_trickle, WORK, is_panic
 from callsets import render_vcf, bgzf_compress, vcf_to_bcf, model_records, model_samples, cli_samples_arg, model_project, cli_project_arg
 from gen_create import random_callset, random_map, pop_sizes, random_projection
 
 RULE = ("random diploid call sets (1-10 samples, 0-60 records) x sample maps x optional projection, each rendered as plain VCF, "
         "BGZF VCF in 7 block layouts (64 KiB blocks; one line per block; tiny irregular blocks with empty blocks interleaved; "
-        "no EOF block; an empty first block; a first block of 1 and of 2 bytes), BGZF BCF and raw BCF (noodles writer), supplied by path and on stdin, with --threads in {1,2,3,4,8,16} "
+        "no EOF block; an empty first block; a first block of 1 and of 2 bytes), BGZF BCF and raw BCF (noodles writer), supplied by path, on stdin in one write and on stdin as a pipe whose first write carries only 1, 2, 3, 20 or 300 bytes, with --threads in {1,2,3,4,8,16} "
         "(quick: 3 of them per form), each configuration repeated (fresh process = fresh hash seeds): stdout must be "
         "byte-identical across ALL forms and equal exit status, and equal to the proved model's output on the abstract call "
         "set. non-trivial = call set with >= 2 populations or a projection")
@@ -62,13 +62,29 @@ def check(rep, tier, seed):
                             jobs.append((argv0 + ["--threads", str(t)], data))
                         labels.append("%s via %s threads=%d run=%d" % (name, via, t, rep_i))
         res = run_cli_many(jobs)
+        # stdin as a pipe that delivers its bytes in several writes: the first read() of the tool sees only 1, 2, 3, 20 or
+        # 300 bytes (inside the gzip / BCF magic, inside the first BGZF block header, inside the first block)
+        tjobs = []
+        for name in ("vcf", "vcf.gz", "vcf.gz-line-per-block", "bcf-raw", "bcf", "bcf-tiny-blocks"):
+            if name not in forms:
+                continue
+            data = forms[name]
+            for first in ((1, 2, 3, 20, 300) if tier == "thorough" else rng.sample((1, 2, 3, 20, 300), 3)):
+                if first < len(data):
+                    t = rng.choice([1, 2, 4])
+                    mid = first + (len(data) - first) // 2
+                    tjobs.append((argv0 + ["--threads", str(t)], [data[:first], data[first:mid], data[mid:]]))
+                    jobs.append((argv0 + ["--threads", str(t)], data))
+                    labels.append("%s via trickled-stdin first-write=%d threads=%d" % (name, first, t))
+        res += run_cli_trickle(tjobs)
         exp = run_model([mc])[0]
         ref = res[0]
         for lab, job, (rc, so, se) in zip(labels, jobs, res):
             rep.count("forms:" + lab.split()[0], "set %d: %s" % (k, lab), sm is not None or pr is not None)
             if is_panic(rc, se) or (rc, so) != (ref[0], ref[1]):
                 rep.fail(kind="property-oracle", cls="forms:" + lab.split()[0].split("-")[0], case="call set %d as %s" % (k, lab), argv=["sfs"] + job[0],
-                         stdin_hex=(job[1] or forms[lab.split()[0]]).hex()[:8000],
+                         stdin_hex=(job[1] or forms[lab.split()[0]]).hex()[:400000],
+                         first_write=(int(lab.split("first-write=")[1].split()[0]) if "first-write=" in lab else None),
                          observed={"rc": rc, "stdout": so.decode(errors="replace")[:300], "stderr": se.decode(errors="replace")[-300:]},
                          expected={"rc": ref[0], "stdout": ref[1].decode(errors="replace")[:300], "reference": labels[0]},
                          detail="the same records supplied in another container / transport / thread count gave a different result")
